@@ -66,6 +66,8 @@ def b(x):
 
 def q(x) -> str:
     fr = Fraction(x)
+    if fr.denominator > 1024:           # a non-representable value of the relational stream: show the float literal
+        return repr(float(x))
     return f"{fr.numerator}/{fr.denominator}"
 
 
